@@ -611,7 +611,7 @@ func sharedIngredient(v ssa.Value, region *ssa.Function) string {
 
 func init() {
 	Register(&Rule{ID: "R-PAR-11", Props: []string{"C13"}, Floor: 1,
-		Doc: "library objects shared by goroutines: a local object whose type comes from another module and is not documented as safe for concurrent use (same table as R-PAR-8) is used — by method calls — from at most one of the goroutines that run concurrently in a function (two `go` operands not separated by a Wait, or one region with several instances), unless every such call holds a common mutex; values cross between the goroutines through channels or atomics (today: the file loaders hand the reader's position over with atomic.StoreInt64, the reader itself stays with the reading goroutine)",
+		Doc:      "library objects shared by goroutines: a local object whose type comes from another module and is not documented as safe for concurrent use (same table as R-PAR-8) is used — by method calls — from at most one of the goroutines that run concurrently in a function (two `go` operands not separated by a Wait, or one region with several instances), unless every such call holds a common mutex; values cross between the goroutines through channels or atomics (today: the file loaders hand the reader's position over with atomic.StoreInt64, the reader itself stays with the reading goroutine)",
 		Controls: []string{"CtlReaderSharedByTwoGoroutines"},
 		Run:      rulePar11})
 }
